@@ -37,7 +37,7 @@ where
     });
 
     // (b1) truncation at every offset
-    let docs = small_docs(ctx, ctx.tier.pick(150, 3000));
+    let docs = small_docs(ctx, ctx.tier.pick(600, 3000));
     par_items(ctx, &docs, |d, st| {
         for cut in 0..=d.len() {
             st.class("truncation");
@@ -49,7 +49,7 @@ where
 
     // (b2) mutated documents
     let reach: Vec<Vec<usize>> = (0..NVER).map(crate::c01::reachable).collect();
-    let cases = ctx.tier.pick(200_000u64, 6_000_000u64);
+    let cases = ctx.tier.pick(1_000_000u64, 8_000_000u64);
     run_prop(ctx, "mutated-docs", cases, mutated_doc_strategy(), |v, st| {
         let Some(bytes) = build_mutated(&reach, v) else {
             return Outcome::Discard;
@@ -65,7 +65,7 @@ where
     });
 
     // (c) random bytes, random UTF-8, random token soup after a valid prefix
-    let cases = ctx.tier.pick(150_000u64, 4_000_000u64);
+    let cases = ctx.tier.pick(800_000u64, 6_000_000u64);
     let cx = contexts();
     let strat = prop_oneof![
         proptest::collection::vec(any::<u8>(), 0..200).prop_map(|v| (0usize, v)),
